@@ -728,7 +728,7 @@ func main() {
 	froms := []string{"ub", "ua", "asis"}
 	if thorough {
 		poolN = 5
-		froms = []string{"ub", "ua", "uc", "asis", "foreign"}
+		froms = []string{"ub", "ua", "asis", "foreign"}
 	}
 	rin := responseInputs(respNames, respQt, poolN, froms)
 	plainIn := make([]Input, len(rin))
@@ -760,13 +760,17 @@ func main() {
 	respRules := mkRules(respCondSets, respOuts, plainIn)
 	respFb2 := []string{"accept", "ua"}
 	if thorough {
-		respFb2 = []string{"accept", "reject", "ua"}
+		respFb2 = []string{"reject", "ua"}
 	}
 	r.Set("response_rule_pool", len(respRules))
 	r.Set("response_inputs", len(rin))
 
 	// ----- Pass 0 (production match-set length 1024): every program with <=1 rule, every fallback -----
-	setShare(0.20)
+	shares := []float64{0.20, 0.55, 1.0, 1.0}
+	if thorough {
+		shares = []float64{0.10, 0.35, 0.80, 1.0}
+	}
+	setShare(shares[0])
 	(&matcherRun{name: "upto1rule_fullsize", nUp: nUp, rin: rin, froms: froms,
 		req:  &space{name: "request", nUp: nUp, inputs: reqIn, rules: reqRules, fallbacks: reqOuts, maxRules: 1},
 		resp: &space{name: "response", nUp: nUp, inputs: plainIn, rules: respRules, fallbacks: respOuts, maxRules: 1}}).run(r)
@@ -790,18 +794,18 @@ func main() {
 	legDone("leg1c_router")
 
 	// ----- Leg 2 (before the 2-rule bulk of leg 1, so that it always gets its share) -----
-	setShare(0.55)
+	setShare(shares[1])
 	runLeg2(r)
 	legDone("leg2_flow")
 
 	// ----- Leg 1 bulk: every 2-rule program -----
-	setShare(0.92)
+	setShare(shares[2])
 	(&matcherRun{name: "2rules", nUp: nUp, rin: rin, froms: froms,
 		req:  &space{name: "request", nUp: nUp, inputs: reqIn, rules: reqRules, fallbacks: reqFb2, minRules: 2, maxRules: 2},
 		resp: &space{name: "response", nUp: nUp, inputs: plainIn, rules: respRules, fallbacks: respFb2, minRules: 2, maxRules: 2}}).run(r)
 	legDone("leg1_2rules")
 	if thorough {
-		setShare(1.0)
+		setShare(shares[3])
 		red := [][]Cond{{upB}, {neg(upA)}, {ipIn}, {neg(ipMix)}, {rQT[1]}, {rQN[1]}, {ipIn, rQN[2]}, {upA, rQT[0]}}
 		(&matcherRun{name: "3rules", nUp: nUp, rin: rin, froms: froms,
 			req:  &space{name: "request3", nUp: nUp, inputs: reqIn, rules: mkRules(redConds, append(redOuts, "asis"), reqIn), fallbacks: []string{"ub", "asis", "reject"}, minRules: 3, maxRules: 3},
@@ -817,7 +821,7 @@ func main() {
 	r.Assume("upstreams are IP literals (udp://192.0.2.x, tcp://192.0.2.3): no bootstrap resolver, no network; dns.New's optimizer chain (DatReader, MergeAndSort, DeduplicateParams) runs exactly as in production but geosite/geoip references are not part of the grammar")
 	r.Assume("qname patterns are lower-case and inside the documented alphabet (pattern-kind semantics for odd patterns is C11's subject); v4-mapped IPv6 answer addresses are not in the answer pool")
 	r.Assume("upstream(<reserved word>) conditions (upstream(accept), upstream(reject), upstream(asis)) are outside the grammar: the statement does not define them")
-	r.Assume("quick: 2-rule programs use 2 of the fallbacks (all fallbacks for <=1-rule programs); thorough: all request fallbacks, 3 response fallbacks, 3 upstreams")
+	r.Assume("2-rule programs: quick uses request fallbacks {asis, ua} and response fallbacks {accept, ua}; thorough uses all request fallbacks and response fallbacks {reject, ua}; programs with <=1 rule use every fallback; thorough has 3 upstreams, quick 2")
 	r.Assume("Leg 1c: a daedns.Router is only built when at least one request rule exists (daedns.New returns nil otherwise), so rule-less programs are not exercised there; asis and reject both mean 'hand over to the base resolver' for dae's own lookups")
 	r.Finish()
 }
